@@ -1,11 +1,19 @@
 CHECK = {
-    "pkg": ".", "tags": "e2e_testing", "hide": ["interface_emit_test.go"],
-    "files": ["netsim/ns_core_test.go", "netsim/ns_world_test.go", "netsim/ns_history_test.go", "netsim/c49_test.go"],
-    "run": "^TestC49", "env": {"GOMAXPROCS": "1", "GODEBUG": "asyncpreemptoff=1"},
-    "quick": {"scale": 1, "shards": 4, "timeout": 900},
-    "thorough": {"scale": 6, "shards": 12, "timeout": 2400},
+    "parts": [
+        {"pkg": ".", "tags": "e2e_testing", "hide": ["interface_emit_test.go"],
+         "files": ["netsim/ns_core_test.go", "netsim/ns_world_test.go", "netsim/ns_history_test.go", "netsim/c49_test.go"],
+         "run": "^TestC49_StopAnywhere", "env": {"GOMAXPROCS": "1", "GODEBUG": "asyncpreemptoff=1"},
+         "quick": {"scale": 1, "shards": 4, "timeout": 900},
+         "thorough": {"scale": 6, "shards": 12, "timeout": 2400}},
+        # service listeners (DNS responder, prometheus stats, sshd): real loopback sockets, real time, no bubble
+        {"pkg": ".", "tags": "e2e_testing", "hide": ["interface_emit_test.go"],
+         "files": ["netsim/ns_core_test.go", "netsim/ns_world_test.go", "netsim/ns_history_test.go", "netsim/c49_test.go", "netsim/c49svc_test.go"],
+         "run": "^TestC49_Services",
+         "quick": {"scale": 1, "shards": 2, "timeout": 900},
+         "thorough": {"scale": 10, "shards": 6, "timeout": 2400}},
+    ],
     "engine": "E-netsim",
     "technique": "fault injection: Control.Stop at rapid-generated points of multi-node histories inside a synctest bubble; termination, closed-resource and goroutine-survivor oracles",
-    "rule": "Generated worlds (2-3 hosts, optional lighthouse and relay, blocked direct paths so relayed tunnels exist) run 3-45 generated steps (traffic, delivery in/out of order, drops, virtual time, closes, re-handshakes, config reloads); Stop is injected before Start, right after Start, mid-history on one node or on all at once, right after a reload, at the end, and optionally twice in a row. Checked: Stop and Wait return within 5 s of virtual time with no delivery; the UDP socket and the tun device refuse writes, the state is Stopped, the context is cancelled, Start is refused; after all nodes are stopped and 10 more virtual seconds passed, no goroutine with nebula frames exists. Non-trivial: a stop injected while a handshake was pending or tunnels (direct or relayed) were live; distinct by step list.",
-    "assumptions": ["sshd, dns and stats listeners use real sockets, whose goroutines are not durably blocked for synctest; those variants are outside this check (the upstream lifecycle tests cover their start/stop)"],
+    "rule": "Generated worlds (2-3 hosts, optional lighthouse and relay, blocked direct paths so relayed tunnels exist) run 3-45 generated steps (traffic, delivery in/out of order, drops, virtual time, closes, re-handshakes, config reloads); Stop is injected before Start, right after Start, mid-history on one node or on all at once, right after a reload, at the end, and optionally twice in a row. Checked: Stop and Wait return within 5 s of virtual time with no delivery; the UDP socket and the tun device refuse writes, the state is Stopped, the context is cancelled, Start is refused; after all nodes are stopped and 10 more virtual seconds passed, no goroutine with nebula frames exists. Non-trivial: a stop injected while a handshake was pending or tunnels (direct or relayed) were live; distinct by step list. Services part: a lone lighthouse with generated subsets of DNS responder / prometheus listener / sshd on loopback ports; 0-6 generated operations (move a service to another port, toggle it, reload unchanged, DNS query, scrape with and without keep-alive, a TCP client that connects to the sshd and never speaks); Stop before Start, right after Start or after the operations; afterwards the process holds no socket on any port a service ever used (from /proc/self) and no goroutine of nebula, its sshd, miekg/dns server or net/http server remains. Non-trivial there: a reload restarted a listener before the stop.",
+    "assumptions": ["sshd, dns and stats listeners use real sockets, whose goroutines are not durably blocked for synctest; they are exercised by a second part in real time on loopback, where 'released' is judged 20 s after Stop (observed: milliseconds)"],
 }
